@@ -37,7 +37,7 @@ def run_driver(lines):
 
 
 def model_line(scen):
-    keys = ('id', 'env', 'op', 'ty', 'val', 'handlers', 'name', 'style', 'tys', 'args')
+    keys = ('id', 'env', 'op', 'ty', 'val', 'handlers', 'name', 'style', 'tys', 'args', 'kwargs', 'cls', 'decls', 'obj', 'set', 'set_only', 'rename', 'frozen', 'deep')
     return json.dumps({k: scen[k] for k in keys if k in scen}, ensure_ascii=False)
 
 
@@ -117,8 +117,25 @@ def run_scenarios(scens, keep_ctx=False, project_what=None, stats=None):
     prepared = []
     for sc in scens:
         try:
+            if sc['op'] == 'process':
+                ctx, out = impl.run_process(sc)
+                sc['env'] = {}
+                prepared.append((sc, ctx, out))
+                continue
             ctx = impl.prepare(sc)
             vals = []
+            for k in ('args',):
+                for a in sc.get(k, []):
+                    try:
+                        vals.append(ctx.dec(a))
+                    except Exception:
+                        pass
+            for k in ('kwargs',):
+                for _, a in sc.get(k, []):
+                    try:
+                        vals.append(ctx.dec(a))
+                    except Exception:
+                        pass
             if 'val' in sc:
                 try:
                     vals.append(ctx.dec(sc['val']))
